@@ -110,6 +110,18 @@ def multiformOp (j : Json) : Json :=
                 ("resolved", Json.arr ((PauliAlg.doCommuteResolved ra rb).map Json.bool).toArray)]
   | _, _, _, _ => jErr "mf: bad arguments"
 
+/-- {"op":"ansatz_calls","calls":[["set",i],["update",j],..]} → labels of the recorded vector and of the vector the circuit
+    holds after the history (labels are indices into the harness' list of vectors; the build carries label 0) -/
+def ansatzCallsOp (j : Json) : Json :=
+  let calls : List (Tangelo.AnsatzUpdate.Call Nat) := match j.getObjValD "calls" with
+    | .arr a => a.toList.filterMap (fun e => match e with
+        | .arr #[.str "set", n] => (getNat? n).map Tangelo.AnsatzUpdate.Call.set
+        | .arr #[.str "update", n] => (getNat? n).map Tangelo.AnsatzUpdate.Call.update
+        | _ => none)
+    | _ => []
+  let o := Tangelo.AnsatzUpdate.Obj.run (fun (_ : Nat) θ => θ) ⟨0, 0⟩ calls
+  Json.mkObj [("var", Json.num o.var), ("circ", Json.num o.circ)]
+
 end Tangelo.Driver
 
 namespace Tangelo.Driver
